@@ -575,7 +575,7 @@ func renewalAttempt(nCont int, cutAfter int) (key, msg string, stalled bool) {
 // the first successful read behind an idle period is followed by a flush "for deadline update" although the timeout
 // branch has just flushed - key flush:first-read-after-idle-period-splits-record), so they stay off until that key is
 // listed as a known finding or the defect is repaired. VERIF_C08_AFTER_IDLE=1 / =0 overrides.
-const afterIdleDefault = false
+const afterIdleDefault = true
 
 func afterIdleEnabled() bool {
 	switch os.Getenv("VERIF_C08_AFTER_IDLE") {
